@@ -1783,6 +1783,20 @@ func genEncoding(repo string) (string, error) {
 	}
 	fmt.Fprintf(&out, "\n/-- bits of the index part / of the register-type part of a value index (from decodeValueIndex) -/\ndef valueIndexBits : Nat := %d\ndef valueTypeBits : Nat := %d\n\n", valueIndexBits, typeBits)
 
+	// ---- immediates
+	guardedFuncs := map[string]bool{}
+	for _, r := range rows {
+		if r.guard != nil && strings.Contains(r.site, ".") {
+			f := strings.Fields(r.site)[0]
+			guardedFuncs[f[strings.LastIndex(f, ".")+1:]] = true
+		}
+	}
+	imms, err := immediates(comp, guardedFuncs)
+	if err != nil {
+		return "", err
+	}
+	out.WriteString(immediatesLean(imms))
+
 	// ---- driver table
 	out.WriteString("/-! ### untyped wrappers for the correspondence driver -/\n")
 	for _, f := range funcs {
